@@ -89,7 +89,7 @@ Proof.
   intros fstat fcond disp fs c s (nw & lg & ->) Hlt.
   assert (r_ack_limit r <=? c + 1 = false) as Hle by (apply Z.leb_gt; lia).
   unfold expire_d, mk. nsm.
-  rewrite dsm_none, nif_waiting_fin_ack by reflexivity.
+  rewrite dsm_none by reflexivity. unfold catch_abandoned at 1, catch. rewrite nif_waiting_fin_ack by reflexivity.
   remember (non_idle_fsm 2 None) as ag eqn:Hag.
   unfold handle_waiting_for_finished_ack, handle_positive_ack_procedures. msimp.
   rewrite timer_expired_d. msimp. rewrite Hle. msimp.
@@ -132,11 +132,12 @@ Proof.
   assert (r_ack_limit r <=? c + 1 = true) as Hle by (apply Z.leb_le; lia).
   assert (disp =? DISP_CANCELED = false) as Hdc by (apply Z.eqb_neq; exact Hdisp).
   unfold expire_d, mk. nsm.
-  rewrite dsm_none, nif_waiting_fin_ack by reflexivity.
+  rewrite dsm_none by reflexivity. unfold catch_abandoned at 1, catch. rewrite nif_waiting_fin_ack by reflexivity.
   remember (non_idle_fsm 2 None) as ag eqn:Hag.
   unfold handle_waiting_for_finished_ack, handle_positive_ack_procedures. msimp.
   rewrite timer_expired_d. msimp. rewrite Hle. msimp. rewrite Hdc. msimp.
   unfold declare_fault. msimp. rewrite Hfh. msimp.
+  unfold catch_abandoned, catch. msimp.
   subst ag.
   match goal with |- context[non_idle_fsm 2 None ?st] => nstate st end.
   match goal with |- context[non_idle_fsm 2 None ?st] =>
@@ -159,7 +160,7 @@ Proof.
   intros fstat fcond fs c s (nw & lg & ->) Hge.
   assert (r_ack_limit r <=? c + 1 = true) as Hle by (apply Z.leb_le; lia).
   unfold expire_d, mk. nsm.
-  rewrite dsm_none, nif_waiting_fin_ack by reflexivity.
+  rewrite dsm_none by reflexivity. unfold catch_abandoned at 1, catch. rewrite nif_waiting_fin_ack by reflexivity.
   remember (non_idle_fsm 2 None) as ag eqn:Hag.
   unfold handle_waiting_for_finished_ack, handle_positive_ack_procedures. msimp.
   rewrite timer_expired_d. msimp. rewrite Hle. msimp. nres.
